@@ -54,6 +54,8 @@ Definition want (name : string) (v : Z) (masks : list Z) : option (option (list 
 Definition check17 (c : case17) : verdict :=
   match c with
   | NMF name sign mag masks outcome unchanged enc value mask regenc =>
+    (* sign 2: the data argument is a nil *big.Int - not a number: the builder must report an error *)
+    if Uint63.eqb sign 2 then mkv (Uint63.to_Z outcome =? 1) (Uint63.to_Z outcome =? 1) else
     let nm := string_of_list_byte (unpack name) in
     let v := (if Uint63.eqb sign 0 then 1 else -1) * Z.of_N (be_value (unpack mag)) in
     let ms := map (fun i => Uint63.to_Z i - bias) masks in
